@@ -19,12 +19,25 @@ import (
 // filterType draws a type for filter and range tests: 1..maxAttrs attributes
 // over all kinds plus optionally a to-one and a to-many relationship.
 func filterType(t *rapid.T, maxAttrs int, withRels bool) gen.TypeSpec {
+	return filterTypeWide(t, maxAttrs, withRels, 150)
+}
+
+// filterTypeWide: one type in wideOneIn has more than 64 fields.
+func filterTypeWide(t *rapid.T, maxAttrs int, withRels bool, wideOneIn int) gen.TypeSpec {
 	ts := gen.TypeSpec{Name: "t", IDPos: rapid.IntRange(0, 3).Draw(t, "idpos"), EmbedID: rapid.IntRange(0, 4).Draw(t, "embedid") == 0, NamedID: rapid.IntRange(0, 5).Draw(t, "namedid") == 0}
+	ts.EmbedExtra = rapid.IntRange(0, 5).Draw(t, "embedextra") == 0
+	ts.Shadow = rapid.IntRange(0, 5).Draw(t, "shadow") == 0
 	n := rapid.IntRange(1, maxAttrs).Draw(t, "nattrs")
+
+	// Now and then more than 64 fields.
+	// (rapid favours the ends of a range: a value in the middle is rare.)
+	if rapid.IntRange(1, wideOneIn).Draw(t, "wide") == wideOneIn*2/3 {
+		n = rapid.IntRange(62, 72).Draw(t, "wide-n")
+	}
 
 	for i := 0; i < n; i++ {
 		ts.Attrs = append(ts.Attrs, jsonapi.Attr{
-			Name:     fmt.Sprintf("a%d", i),
+			Name:     fmt.Sprintf(map[bool]string{false: "a%d", true: "a%02d"}[n > 10], i),
 			Type:     rapid.SampledFrom(gen.Kinds).Draw(t, "kind"),
 			Nullable: rapid.Bool().Draw(t, "nullable"),
 		})
